@@ -25,8 +25,8 @@ TEXT = {
  "C12": ("b64 round trip and canonicity, text form, parseText_iff (accepted strings are exactly the text and the text without prefix), foreign characters and trailing bytes rejected. Tie: txt family (padding, alphabets, whitespace, prefixes, trailing bits, appended bytes) through from_str and serde_json.", ""),
  "C13": ("decode_append / prefix locality in both directions with the same error, advance = item length, decodeMany and decodeList theorems. Tie: stream family (suffixes 0..1000 bytes, back-to-back records, Vec<Enr>).", ""),
  "C14": ("Accessor characterisations (port/ip/id/client) against the raw content, u16 round trip for all ports by proof, setter read-back, socket combination. Tie: acc family (ports through builder/setter/socket setter/decode, 64 presence combinations, arbitrary raw values).", ""),
- "C15": ("Equivalence relation, eq -> equal hash feed, clone and re-decode, compare_content_iff by payload injectivity, eq -> same content under the named cryptographic hypotheses SigBinds and HashInj. Tie: eq family.",
-         "'equal records carry identical pairs' rests on SigBinds/HashInj (hypotheses, not axioms)."),
+ "C15": ("Equality is structural (eqv_iff_eq), an equivalence, implies equal hash feed, identical pairs and identical encoding unconditionally (since fix 60cb6b7 equality compares the pairs; the legacy definition needed the cryptographic hypotheses SigBinds/HashInj, kept as documentation with the counterexample); clone and re-decode; compare_content_iff by payload injectivity. Tie: eq family (clones, re-decodings, re-signings, one-field edits, re-keyings, proper-prefix contents, key/value boundary shifts, and two valid records with the same signature but different pairs under a small-order ed25519 key).",
+         ""),
  "C16": ("parse_iff, ser/deser/debug/display forms and round trips for every 32-byte value and every string. Tie: nid family (all slice lengths 0..64, strings of length 0..70, prefixes, case, non-hex).", ""),
  "C17": ("import_iff_valid, export_import, buffer_zeroed / kept on error, public key = independent derivation. Tie: ck family (0, 1, n-1, n, n+1, 2^256-1, random; wrong lengths for ed25519), public keys derived by the Lean curve code.",
          "That d*G is never the identity for 0<d<n is not proved (group theory); validated on every case."),
